@@ -37,7 +37,8 @@ def gen_case(rng, gitlike=False):
     if gitlike:
         name = name.replace(b"\n", b"").replace(b" ", b"") or b"v"
     return {
-        "target": hx(bytes(rng.randrange(256) for _ in range(20))),
+        # ("any name and target": the model does not fix the length of a release's target)
+        "target": hx(bytes(rng.randrange(256) for _ in range(20 if gitlike or rng.random() < 0.85 else rng.choice([0, 0, 1, 19, 21, 32])))),
         "ttype": rng.choice(TTYPES[:4] if gitlike else TTYPES),
         "name": hx(name),
         "author": hx(author),
@@ -115,10 +116,12 @@ def check_cases(ctx, cases):
             ctx.fail(case, "Release.id is not the SHA-1 of the tag object", "id-not-sha1-of-manifest")
         if str(rel.swhid()) != "swh:1:rel:" + rel.id.hex():
             ctx.fail(case, "swhid() does not carry the id", "swhid-mismatch")
-        tsw = rel.target_swhid()
-        tag = {"content": "cnt", "directory": "dir", "revision": "rev", "release": "rel", "snapshot": "snp"}[case["ttype"]]
-        if str(tsw) != f"swh:1:{tag}:" + case["target"]:
-            ctx.fail(case, "target_swhid() wrong", "target-swhid")
+        ctx.count("target-bytes=%d" % (len(case["target"]) // 2))
+        if len(case["target"]) == 40:   # (a SWHID needs a 20-byte id)
+            tsw = rel.target_swhid()
+            tag = {"content": "cnt", "directory": "dir", "revision": "rev", "release": "rel", "snapshot": "snp"}[case["ttype"]]
+            if str(tsw) != f"swh:1:{tag}:" + case["target"]:
+                ctx.fail(case, "target_swhid() wrong", "target-swhid")
         try:
             phs, pmsg = gitfmt.indep_parse_headers(man, b"tag")
             if phs != hs or pmsg != unhx(case["message"]):
